@@ -77,7 +77,8 @@ def child_wf(key, ci):
     attribute; a child without a key is a section slot (only sections may be unnamed); a key
     child is filed under its own name ('+' for a wildcard key)."""
     return (ci.attribute is not None and ((key is not None and key != '') or isa(ci, 'info.SectionInfo'))
-            and (isa(ci, 'info.SectionInfo') or key == ci.name))
+            and (isa(ci, 'info.SectionInfo') or key == ci.name)
+            and ci.name is not None and ci.name != '')
 
 
 def slot_ok(ci, values):
@@ -195,3 +196,14 @@ def entry_ok(ci, values, x):
     if ci.maxOccurs > 1:
         return is_alt(m[x], 'lst')
     return not is_alt(m[x], 'lst')
+
+
+def section_added(old, new, ci, sectvalue):
+    """C01/C02: a multisection slot gets the section value appended (file order); a
+    single section slot, which must be empty, holds it."""
+    if ci.maxOccurs > 1:
+        o = alt(old, 'lst')
+        n = alt(new, 'lst')
+        return (is_alt(new, 'lst') and len(n) == len(o) + 1 and n[:-1] == o and is_alt(n[-1], 'sv')
+                and alt(n[-1], 'sv') == sectvalue)
+    return is_alt(old, 'none') and is_alt(new, 'sv') and alt(new, 'sv') == sectvalue
